@@ -4,8 +4,10 @@
      conn_run of the same chunks; with the chunking theorem of PipelineProofs.v the outcome is a function
      of the concatenated bytes alone.
    - repaired_acted_all: the repaired hand-over never leaves anything unhandled.
-   - handover_keeps_reader: the obligation over the facts the translator reads off the source
-     (Gen/LiveHandover.v): the live loop reads from the reader of netServe, buffer included. *)
+   - handover_keeps_reader / handover_keeps_rest / live_loop_msgs_before_error: the obligations over the facts
+     the translator reads off the source (Gen/LiveHandover.v): the live loop reads from the reader of
+     netServe, buffer included; the rest of the hand-over read and its error are handed to it; it handles the
+     messages of a read before the read's error.  Together: ho_source = ho_repaired. *)
 From Coq Require Import ZifyN ZifyNat ZifyBool.
 From T38 Require Import Base.Bytes Model.Resp Model.Pipeline Model.PipelineLive Model.HandoverFacts
   Proofs.RespProofs Proofs.PanicProofs Proofs.PipelineProofs.
@@ -17,18 +19,35 @@ Definition source_reader_survives : bool :=
   reader_survives Gen.LiveHandover.handover_read_reader Gen.LiveHandover.handover_golive_reader
     Gen.LiveHandover.handover_assigns Gen.LiveHandover.handover_reader_calls Gen.LiveHandover.live_readers.
 
-(* the hand-over of the source as the model sees it: the buffer flag is computed from the extracted facts;
-   the two other flags are the pinned behaviour (or the repaired one once the block passes the rest on) *)
+Definition source_rest_kept : bool :=
+  rest_kept Gen.LiveHandover.handover_read_reader Gen.LiveHandover.handover_loop_var
+    Gen.LiveHandover.handover_reader_method_calls Gen.LiveHandover.reader_methods
+    Gen.LiveHandover.readmessages_head Gen.LiveHandover.readmessages_tail.
+Definition source_live_err_after_msgs : bool := live_err_after_msgs Gen.LiveHandover.live_subscription_loop.
+
+(* the hand-over of the source as the model sees it: all three flags are computed from the extracted facts *)
 Definition ho_source : handover :=
   {| ho_keep_buf := source_reader_survives;
-     ho_pass_rest := Gen.LiveHandover.handover_uses_rest;
-     ho_live_err_keeps := false |}.
+     ho_pass_rest := source_rest_kept;
+     ho_live_err_keeps := source_live_err_after_msgs |}.
 
 Lemma handover_keeps_reader : source_reader_survives = true.
 Proof. vm_compute. reflexivity. Qed.
 
+Lemma handover_keeps_rest : source_rest_kept = true.
+Proof. vm_compute. reflexivity. Qed.
+
+Lemma live_loop_msgs_before_error : source_live_err_after_msgs = true.
+Proof. vm_compute. reflexivity. Qed.
+
 Lemma ho_source_keeps_buf : ho_keep_buf ho_source = true.
 Proof. exact handover_keeps_reader. Qed.
+
+Lemma ho_source_repaired : ho_source = ho_repaired.
+Proof.
+  unfold ho_source, ho_repaired.
+  rewrite handover_keeps_reader, handover_keeps_rest, live_loop_msgs_before_error. reflexivity.
+Qed.
 
 (* ---------- split_live ---------- *)
 Section Live.
@@ -212,12 +231,12 @@ Proof.
   rewrite (A chunks Hb). rewrite (A [concat chunks]); cbn [concat]; rewrite ?app_nil_r; [reflexivity|exact Hb].
 Qed.
 
-(* the source: the buffer flag comes from the extracted facts *)
+(* the source: all three flags come from the extracted facts; no excluding hypothesis is left *)
 Theorem t38_live_chunking_source golive chunks :
   len (concat chunks) < BIG ->
-  acted_all (t38_live_run ho_source golive chunks) = true ->
-  t38_live_run ho_source golive chunks = t38_live_spec golive (concat chunks).
-Proof. intros Hb Ha. apply t38_live_chunking; [exact ho_source_keeps_buf|exact Hb|exact Ha]. Qed.
+  t38_live_run ho_source golive chunks = t38_live_spec golive (concat chunks) /\
+  t38_live_run ho_source golive chunks = t38_live_run ho_source golive [concat chunks].
+Proof. rewrite ho_source_repaired. apply t38_live_chunking_repaired. Qed.
 
 (* no run of the source model crashes or runs out of fuel *)
 Lemma t38_live_no_crash h golive chunks :
